@@ -445,6 +445,34 @@ pub fn c11(a: &Args) {
                 }
             }
         }
+        // configuration shapes: nearly complete, complete, padded with names that are not rules, nulls - the
+        // effective switch of EVERY rule after the overlay is compared (unmentioned: curated default; explicit wins)
+        {
+            let curated = LintGroupConfig::new_curated();
+            for i in 0..a.num("shapes", 40) as usize {
+                let mut user = serde_json::Map::new();
+                let shape = i % 5;
+                let nmiss = match shape { 0 => 0, 1 => 1, 2 => 2, 3 => rng.range(1, 6), _ => names.len() - rng.range(0, 6) };
+                let mut missing: BTreeSet<String> = BTreeSet::new();
+                while missing.len() < nmiss.min(names.len()) { missing.insert(rng.pick(&names[..]).clone()); }
+                for nme in &names {
+                    if missing.contains(nme) { if rng.chance(1, 3) { user.insert(nme.clone(), Value::Null); } continue; }
+                    user.insert(nme.clone(), json!(if rng.chance(1, 4) { !curated.is_rule_enabled(nme) } else { rng.chance(1, 2) }));
+                }
+                for k in 0..(if i % 2 == 0 { nmiss + rng.range(0, 3) } else { 0 }) { user.insert(format!("RenamedRule{k}"), json!(rng.chance(1, 2))); }
+                let ujson = Value::Object(user.clone());
+                let want = |nme: &str| -> bool { match user.get(nme) { Some(Value::Bool(b)) => *b, _ => curated.is_rule_enabled(nme) } };
+                let core = catch(|| { let mut c: LintGroupConfig = serde_json::from_value(ujson.clone()).unwrap(); c.fill_with_curated(); c });
+                let ls = catch(|| { let mut c = crate::config::Config::from_lsp_config(json!({"harper-ls": {"linters": ujson}})).unwrap().lint_config; c.fill_with_curated(); c });
+                for (entry, r) in [("core", core), ("ls", ls)] {
+                    if let Ok(c) = r {
+                        let wrong: Vec<&String> = names.iter().filter(|n| c.is_rule_enabled(n) != want(n)).collect();
+                        out.emit(&json!({"ev": "Effective", "entry": entry, "explicit": user.values().filter(|v| v.is_boolean()).count(), "unknown": user.keys().filter(|k| k.starts_with("RenamedRule")).count(),
+                            "missing": nmiss, "wrong": wrong.len(), "first_wrong": wrong.first().map(|s| s.as_str()).unwrap_or("")}));
+                    }
+                }
+            }
+        }
         // entry formats: harper-wasm JSON config and harper-ls settings, overlaid on curated defaults
         let dict = FstDictionary::curated();
         for i in 0..a.num("overlays", 60) as usize {
@@ -539,6 +567,10 @@ pub fn c12(a: &Args) {
             }
             for head in ["a", "an", "the the", "and", "apple", "then", "of", "to", "st", "s", "i", "its", "and, so", "however", "1", "th"] {
                 if rng.chance(1, 6) { jobs.push((p.clone(), format!("{head} {}", d))); }
+            }
+            // D opens with white space or with something that is special at the start of a line / document
+            for lead in ["  ", "\t", " ", "    ", "\t\t", "\u{a0}", "- ", "* ", "> ", "# ", "1. ", "-- ", "--- ", "...", "(", "—"] {
+                if rng.chance(1, 5) { jobs.push((p.clone(), format!("{lead}{}", d))); }
             }
             // P ending in a word that pairs up with D's first word in some rule
             for tail in ["It was a.", "He had an.", "This is the.", "We want to.", "They could.", "There is.", "I saw the the.", "She is better.", "It is more.", "Back in the.", "Last but not."] {
